@@ -15,11 +15,11 @@
 (*   pos  : [Action -> Nat]  its position in the declared order           *)
 (*   ext  : [Action -> SUBSET Action]  what it reads from outside its own  *)
 (*                                     iteration                           *)
-(* ConfigSeq (module ConcertinaCfg) is a sequence of such records read    *)
-(* from the input file; the variable `ci`                                  *)
-(* (never changed by a step) selects one, so a single TLC run covers every *)
+(* The configurations come from the input file (module ConcertinaCfg, one *)
+(* per line); Init chooses a line `ci` and keeps its derived record in     *)
+(* `cfg` (neither is changed by a step), so a single TLC run covers every  *)
 (* configuration of a bounded family, and the trace specification          *)
-(* (ConcertinaTrace) walks through configurations loaded from a file.      *)
+(* (ConcertinaTrace) walks through the lines one after the other.          *)
 (*                                                                         *)
 (* What the property C14 says, and nothing more:                           *)
 (*   AfterInputs   a statement runs only after everything it reads from    *)
@@ -43,14 +43,16 @@
 (***************************************************************************)
 EXTENDS ConcertinaCfg
 
-VARIABLES ci,               \* index of the configuration (constant along a behaviour)
+VARIABLES ci,               \* line of the input file (constant along a behaviour)
+          cfg,              \* its configuration = ConfigOf(ci)    (ditto)
           runs,             \* [Action -> Nat]  completed runs
           finished,         \* SUBSET Action
           raised            \* SUBSET Iter: iterations whose stop signal is up
 
-vars == <<ci, runs, finished, raised>>
+vars == <<ci, cfg, runs, finished, raised>>
+(* cfg is a function of ci: states are told apart without hashing it *)
+View == <<ci, runs, finished, raised>>
 
-cfg          == ConfigSeq[ci]
 Action       == 1..cfg.n
 Iter         == DOMAIN cfg.iters
 Members(i)   == cfg.iters[i].members
@@ -62,7 +64,8 @@ Pos(a)       == cfg.pos[a]
 External(a)  == cfg.ext[a]
 
 -----------------------------------------------------------------------------
-Init == /\ ci \in DOMAIN ConfigSeq
+Init == /\ ci \in DOMAIN Lines
+        /\ cfg = ConfigOf(ci)
         /\ runs = [a \in Action |-> 0]
         /\ finished = {}
         /\ raised = {}
@@ -82,7 +85,7 @@ CanRun(a) == NotFinished(a) /\ InputsReady(a) /\ InTurn(a)
 
 Step(a, fin) == /\ runs' = [runs EXCEPT ![a] = @ + 1]
                 /\ finished' = IF fin THEN finished \cup {a} ELSE finished
-                /\ UNCHANGED <<ci, raised>>
+                /\ UNCHANGED <<ci, cfg, raised>>
 
 (* The four ways a run can end, kept as separate actions so that TLC's     *)
 (* -coverage shows that none of them is vacuous.                           *)
@@ -98,7 +101,7 @@ Run(a) == RunPlain(a) \/ RunLast(a) \/ RunStopped(a) \/ RunAgain(a)
 
 RaiseSignal(i) == /\ HasSig(i) /\ i \notin raised
                   /\ raised' = raised \cup {i}
-                  /\ UNCHANGED <<ci, runs, finished>>
+                  /\ UNCHANGED <<ci, cfg, runs, finished>>
 
 (* top-level disjuncts are named so that TLC -coverage counts each *)
 DoRunPlain    == \E a \in Action : RunPlain(a)
